@@ -60,6 +60,7 @@ CountersMatch(e) ==
 InputOf(r, real, c) ==
   [args |-> r.args, n |-> r.n, L |-> r.L, s |-> real.s, cmd |-> real.cmd, x |-> r.x, r |-> r.r,
    sys |-> ExpectedMaxSys(real), sysbase |-> ExpectedSysBase(r, real), ptr |-> PTRSIZE, argmax |-> 131072]
+  @@ (IF "tmpl" \in DOMAIN r THEN [tmpl |-> r.tmpl, cmd0 |-> real.cmd0] ELSE <<>>)
 
 \* a new run: the harness's input and the code's Init event
 StartWithInit(r, real, c) ==
@@ -96,7 +97,17 @@ TXFail ==
 
 \* the pending command line is dispatched and the argument retried on a fresh builder: one step of the machine,
 \* two events of the code (only one if nothing was pending, or if the dispatched command ended the run)
+\* -I: the line is substituted into the initial arguments and the result measured before anything is run
+Repl == "tmpl" \in DOMAIN in
+CurLen == in.args[cur[1]].len
+SubstMatches(e, len) ==
+  LET m == SubstMeasure(len) IN
+  /\ e.ev = "Subst" /\ e.fits = m.ok /\ e.sys = m.sys /\ e.max_sys = in.sys
+  /\ (in.s > 0 => "chars" \in DOMAIN e /\ e.chars = m.s /\ e.max_chars = in.s)
+  /\ e.args = 0
+
 TFlush ==
+  /\ ~Repl
   /\ HasEv("Exec") /\ ~Ev.eof /\ Running /\ pending /\ Ev.n = Len(cur)
   /\ ChildReturns
   /\ IF fin' = 0
@@ -120,9 +131,47 @@ TRetryNothingPending ==
   /\ j' = j + 1 /\ UNCHANGED <<l, phase, evars>>
 
 TEofExec ==
+  /\ ~Repl
   /\ HasEv("Exec") /\ Ev.eof /\ Running /\ Eof /\ (~in.r \/ pending) /\ Ev.n = Len(cur)
   /\ ChildReturns
   /\ j' = j + 1 /\ UNCHANGED <<l, phase>>
+
+\* the same two steps with -I: Exec, then the measurement of the substituted command line; only if it fits is
+\* the command run
+TFlushRepl ==
+  /\ Repl
+  /\ HasEv("Exec") /\ ~Ev.eof /\ Running /\ pending /\ Ev.n = Len(cur) /\ Len(cur) = 1
+  /\ j + 1 <= Len(Events) /\ SubstMatches(Events[j + 1], CurLen)
+  /\ IF SubstMeasure(CurLen).ok
+     THEN /\ ChildReturns
+          /\ IF fin' = 0
+             THEN /\ j + 2 <= Len(Events) /\ Events[j + 2].ev \in {"Retry", "TooLarge"}
+                  /\ FlushRetry
+                  /\ IF Events[j + 2].ev = "Retry" THEN status' = "run" /\ ArgMatches(Events[j + 2]) /\ CountersMatch(Events[j + 2])
+                     ELSE status' = "err"
+                  /\ j' = j + 3
+             ELSE /\ pos <= Len(in.args)
+                  /\ execs' = Append(execs, cur) /\ status' = "fatal"
+                  /\ UNCHANGED <<in, pos, cur, cnt, line, sizeS, sizeSys, pending>>
+                  /\ j' = j + 2
+     ELSE \* "Argument too large": nothing is run, the run is over
+          /\ status' = "err" /\ j' = j + 2
+          /\ UNCHANGED <<in, pos, cur, cnt, line, sizeS, sizeSys, pending, execs, evars>>
+  /\ UNCHANGED <<l, phase>>
+
+TEofExecRepl ==
+  /\ Repl
+  /\ HasEv("Exec") /\ Ev.eof /\ Running /\ pos > Len(in.args) /\ (~in.r \/ pending) /\ Ev.n = Len(cur)
+  /\ IF cur = <<>>
+     THEN \* no line to substitute: nothing is run
+          Eof /\ j' = j + 1 /\ UNCHANGED evars
+     ELSE /\ Len(cur) = 1 /\ j + 1 <= Len(Events) /\ SubstMatches(Events[j + 1], CurLen)
+          /\ j' = j + 2
+          /\ IF SubstMeasure(CurLen).ok
+             THEN Eof /\ ChildReturns
+             ELSE /\ status' = "err"
+                  /\ UNCHANGED <<in, pos, cur, cnt, line, sizeS, sizeSys, pending, execs, evars>>
+  /\ UNCHANGED <<l, phase>>
 
 TEofSkip ==
   /\ HasEv("EofSkip") /\ Running /\ Eof /\ ~(~in.r \/ pending)
@@ -144,7 +193,7 @@ NotJudged ==
   /\ PrintT(<<"SKIP", l>>)
   /\ l' = l + 1 /\ UNCHANGED <<j, phase, bvars, evars>>
 
-Step == Start \/ TAccept \/ TXFail \/ TFlush \/ TRetryNothingPending \/ TEofExec \/ TEofSkip \/ TExit
+Step == Start \/ TAccept \/ TXFail \/ TFlush \/ TFlushRepl \/ TRetryNothingPending \/ TEofExec \/ TEofExecRepl \/ TEofSkip \/ TExit
 
 \* the machines cannot take the step the code logged: report the record, go on with the next one
 Reject ==
